@@ -102,12 +102,12 @@ def jobs(tier, seed):
     out = []
     quick = tier == "quick"
     L = 3 if quick else 4
-    for sh in (["G-FIN", "G-LIN", "G-PAL", "G-DUP"] if quick else ["G-FIN", "G-LIN", "G-PAL", "G-DUP", "G-NU", "G-LR", "G-S1", "G-DEAD", "G-NULL3", "G-MUT"]):
+    for sh in (["G-FIN", "G-LIN", "G-PAL", "G-DUP", "G-REP"] if quick else ["G-FIN", "G-LIN", "G-PAL", "G-DUP", "G-REP", "G-NU", "G-LR", "G-S1", "G-DEAD", "G-NULL3", "G-MUT", "G-DUP2"]):
         sk = grammar(sh)
         strings = [list(x) for x in all_strings(sk.V, L)][:15 if quick else 31]
         bits = [0, 1] if sk.K >= 7 else ([0] if sk.K >= 5 else [])
         out += split_job(dict(case="locally_normalize", params=dict(shape=sh, strings=strings)), bits)
-    for sh in (["G-NU", "G-FIN"] if quick else ["G-NU", "G-FIN", "G-PAL", "G-UC", "G-DUP"]):
+    for sh in (["G-NU", "G-FIN", "G-DUP2"] if quick else ["G-NU", "G-FIN", "G-DUP2", "G-PAL", "G-UC", "G-DUP"]):
         sk = grammar(sh)
         out += split_job(dict(case="add_EOS", params=dict(shape=sh, L=3 if quick else 4, call=[[], ["a"], ["a", "b"]])), [0] if sk.K >= 7 else [])
     out.append(dict(case="locally_normalize", params=dict(shape="G-S1", strings=[[], ["a"]], canary=True)))
